@@ -12,20 +12,33 @@ MC_DEPTH = {
 }
 # generation slices: name -> (quick MaxDepth, thorough MaxDepth)
 GEN_DEPTH = {
-    "GEN_relayA": (6, 7), "GEN_relayB": (6, 7), "GEN_relayD": (4, 5), "GEN_time": (5, 6), "GEN_users": (5, 6),
+    "GEN_relayA": (6, 7), "GEN_relayB": (6, 7), "GEN_relayD": (4, 5), "GEN_time": (7, 8), "GEN_users": (5, 6),
     "GEN_iso": (4, 5), "GEN_v6": (4, 5), "GEN_v6strict": (5, 6), "GEN_mtu": (4, 4), "GEN_mtu1200": (4, 4),
 }
+
+
+MODULE_OF = {"MC_auth": "MC_auth.tla", "MC_noauth": "MC_auth.tla", "GEN_auth": "MC_auth.tla", "GEN_noauth": "MC_auth.tla",
+             "MC_nonce": "Nonce.tla", "GEN_nonce": "Nonce.tla"}
+MC_DEPTH.update({"MC_auth": (5, 7), "MC_noauth": (3, 4), "MC_nonce": None})
+GEN_DEPTH.update({"GEN_auth": (4, 5), "GEN_noauth": (2, 3), "GEN_nonce": None})
+
+
+NO_SIM = {"GEN_nonce", "GEN_noauth", "GEN_mtu", "GEN_mtu1200"}
+
+
+def depth(table, name, t):
+    return {"MaxDepth": table[name][t]} if table.get(name) else None
 
 
 def core_run(mcs, gens):
     def run(ctx):
         t = 0 if ctx.tier == "quick" else 1
         for mc in mcs:
-            ctx.model_check(CORE, mc + ".cfg", {"MaxDepth": MC_DEPTH[mc][t]})
+            ctx.model_check(MODULE_OF.get(mc, CORE), mc + ".cfg", depth(MC_DEPTH, mc, t))
         nvar = 1 if ctx.tier == "quick" else 4
         base_seed = ctx.seed
         for g in gens:
-            edges = ctx.generate(CORE, g + ".cfg", {"MaxDepth": GEN_DEPTH[g][t]})
+            edges = ctx.generate(MODULE_OF.get(g, CORE), g + ".cfg", depth(GEN_DEPTH, g, t))
             for k in range(nvar):
                 ctx.seed = base_seed + k
                 r = ctx.walk(g[4:] + ("" if nvar == 1 else "-v%d" % k), edges)
@@ -33,6 +46,16 @@ def core_run(mcs, gens):
                     break
             ctx.seed = base_seed
             os.remove(edges)
+            if ctx.violations:
+                break
+            if g in NO_SIM:
+                continue
+            # long random behaviours of the same configuration straight from `tlc -simulate`
+            # (histories that edge coverage, which reaches each state by a shortest prefix, never has)
+            num, dep = (250, 40) if ctx.tier == "quick" else (4000, 60)
+            traces = ctx.generate(MODULE_OF.get(g, CORE), g + ".cfg", None, simulate=(num, dep))
+            ctx.walk(g[4:] + "-sim", traces, mode="traces")
+            os.remove(traces)
             if ctx.violations:
                 break
     return run
@@ -52,6 +75,11 @@ PROPS = {
     "C02": dict(title="only authorised peers reach the client", level="model_checking",
                 run=core_run(["MC_relay", "MC_relayB", "MC_v6"], ["GEN_relayA", "GEN_relayB", "GEN_relayD", "GEN_v6"]),
                 assumptions=BASE_ASSUME),
+    "C03": dict(title="state changes only with valid long-term credentials", level="model_checking",
+                run=core_run(["MC_auth", "MC_noauth", "MC_nonce"], ["GEN_auth", "GEN_noauth", "GEN_nonce", "GEN_users"]),
+                assumptions=BASE_ASSUME + ["HMAC-SHA1/MD5/SHA256 are treated as uninterpreted injective functions: what is decided is which key and "
+                                           "bytes are compared and when, for the credential-defect classes of TurnAuth.tla and the mutation classes of Nonce.tla",
+                                           "nonce ages 3601..3659 s are a grey band (implementation granularity) that is never probed"]),
     "C04": dict(title="allocations are isolated by 5-tuple", level="model_checking",
                 run=core_run(["MC_iso", "MC_relay"], ["GEN_iso", "GEN_relayD", "GEN_v6"]),
                 assumptions=BASE_ASSUME),
